@@ -137,6 +137,18 @@ pub fn check_node(n: &WalkNode, f: &mut Facts) -> Result<(), String> {
         if o.iter().any(|se| !is_column(&se.expr)) {
             f.label("claim:ordering-on-expression");
         }
+        // an ordering on an output column of a projection that computes it (monotonic function projections)
+        if let Some(pe) = n.plan.downcast_ref::<datafusion::physical_plan::projection::ProjectionExec>() {
+            for se in o.iter() {
+                if let Some(c) = se.expr.downcast_ref::<datafusion::physical_expr::expressions::Column>() {
+                    if let Some(px) = pe.expr().get(c.index()) {
+                        if !is_column(&px.expr) {
+                            f.label("claim:ordering-through-computed-projection");
+                        }
+                    }
+                }
+            }
+        }
         if o.len() > 1 {
             f.label("claim:ordering-multi-key");
         }
@@ -300,6 +312,10 @@ pub fn check_node(n: &WalkNode, f: &mut Facts) -> Result<(), String> {
                 let arrays: Result<Vec<ArrayRef>, String> = exprs.iter().map(|e| eval(e, b)).collect();
                 let Ok(arrays) = arrays else {
                     f.label("skip:hash-expr-eval-error");
+                    f.label(format!("skip:hash-expr-eval-error@{}", n.name));
+                    if std::env::var_os("VFW_DEBUG").is_some() {
+                        eprintln!("HASH-EXPR-EVAL-ERROR node [{}] {} partitioning {} schema {:?}: {:?}", n.path, n.display, props.output_partitioning(), n.plan.schema().fields().iter().map(|x| x.name().clone()).collect::<Vec<_>>(), arrays.err());
+                    }
                     ok = false;
                     break;
                 };
